@@ -150,9 +150,11 @@ Definition copy_ctor_missing : list string := %s.
 Definition move_ctor_missing : list string := %s.
 Definition core_fields : list string := %s.
 """ % (coq_list(uninit), coq_list(copy_missing), coq_list(move_missing), coq_list(res["include"][3]))
-    old = open(OUT).read() if os.path.exists(OUT) else None
+    out = OUT
+    if "--out" in sys.argv: out = sys.argv[sys.argv.index("--out") + 1]
+    old = open(out).read() if os.path.exists(out) else None
     if old != body:
-        open(OUT, "w").write(body)
+        open(out, "w").write(body)
     print(json.dumps(dict(uninitialised_fields=uninit, copy_ctor_missing=copy_missing, move_ctor_missing=move_missing,
                           core_fields=res["include"][3], notes=notes)))
 
